@@ -26,6 +26,7 @@ type vfC15Op struct {
 	Dirs  []int       `json:"dirs,omitempty"`
 	Sizes []uint64    `json:"sizes,omitempty"`
 	OverI int         `json:"overI,omitempty"` // index+1 of the path entry that asks for more than the free space
+	Spell []int       `json:"spell,omitempty"` // per path entry: 0 clean, 1 trailing slash, 2 "/./" inside, 3 "/x/../x" (same directory, other spelling)
 	BL    map[int]int `json:"bl,omitempty"`
 	N     int         `json:"n,omitempty"`
 }
@@ -67,6 +68,7 @@ func vfGenC15Op(t *rapid.T, c *vfC15Case, kinds []string) vfC15Op {
 		for j := 0; j < nd; j++ {
 			op.Dirs = append(op.Dirs, perm[j])
 			op.Sizes = append(op.Sizes, vfGenSize(t, "psize"))
+			op.Spell = append(op.Spell, rapid.SampledFrom([]int{0, 0, 0, 1, 2, 3}).Draw(t, "spell"))
 		}
 		if rapid.IntRange(0, 5).Draw(t, "pover") == 0 {
 			op.OverI = rapid.IntRange(1, nd).Draw(t, "poverI")
@@ -359,17 +361,34 @@ func vfC15Run(c vfC15Case, ctx *vlib.Ctx) *vlib.Failure {
 			sizes := make([]int, len(op.Sizes))
 			targets := map[string]uint64{}
 			gen := map[string]bool{}
-			for _, di := range op.Dirs {
-				paths = append(paths, dirs[di])
-				gen[dirs[di]] = true
+			var cleanPaths []string
+			for j, di := range op.Dirs {
+				d := dirs[di]
+				sp := d
+				if j < len(op.Spell) {
+					switch op.Spell[j] {
+					case 1:
+						sp = d + "/"
+					case 2:
+						sp = filepath.Dir(d) + "/./" + filepath.Base(d)
+					case 3:
+						sp = d + "/../" + filepath.Base(d)
+					}
+				}
+				if sp != d {
+					ctx.Label("path-spelled-differently")
+				}
+				paths = append(paths, sp)
+				cleanPaths = append(cleanPaths, d)
+				gen[d] = true
 			}
 			for i, s := range op.Sizes {
 				if op.OverI == i+1 && i < len(paths) {
-					s = free(paths[i]) + s + s24
+					s = free(cleanPaths[i]) + s + s24
 				}
 				sizes[i] = int(s)
 				if i < len(paths) {
-					targets[paths[i]] = s
+					targets[cleanPaths[i]] = s
 				}
 			}
 			if len(paths) > 1 {
@@ -553,7 +572,7 @@ func vfBase(ps []string) []string {
 
 var vfC15Spec = vlib.Spec[vfC15Case]{
 	Prop: "C15", Name: "configure-capacity",
-	Rule: "1-3 plot directories, 1-7 operations from {ConfigureBySize, ConfigureByPath (1-3 dirs, sizes per dir, mismatched lists), ConfigureByBitLength (bit lengths 24..32), ConfigureByFlags, remove, delete, restart (second keeper on the same directories and wallet), plotted (existing spaces report themselves plotted from now on), mine (ready -> mining)}; sizes around k*PlotSize(24), sums of plot sizes +-1, below the minimum, free disk space + delta for the reject path; real massdb.v1 header files and a real wallet; oracles: selected total <= request and shortfall < PlotSize(24) (per directory for ByPath), no new space while an indexed unselected space of that bit length exists in an allowed directory, new files only under requested directories, exact counts for ByBitLength, the per-directory listing shows only the selection and stays within the per-directory request, a de-selected space refuses actions, rejected requests leave directory listing and wallet key counter unchanged, no existing file altered, a restarted keeper re-indexes exactly the surviving spaces with the same ordinal/bit length/state; non-trivial = a request satisfied by mixing existing and new spaces, or a multi-directory request, or a reject path, or a re-configuration while a space is mining; distinct = distinct case JSON",
+	Rule: "1-3 plot directories, 1-7 operations from {ConfigureBySize, ConfigureByPath (1-3 dirs, sizes per dir, mismatched lists, directories also given with a trailing slash, a /./ element or /x/../x), ConfigureByBitLength (bit lengths 24..32), ConfigureByFlags, remove, delete, restart (second keeper on the same directories and wallet), plotted (existing spaces report themselves plotted from now on), mine (ready -> mining)}; sizes around k*PlotSize(24), sums of plot sizes +-1, below the minimum, free disk space + delta for the reject path; real massdb.v1 header files and a real wallet; oracles: selected total <= request and shortfall < PlotSize(24) (per directory for ByPath), no new space while an indexed unselected space of that bit length exists in an allowed directory, new files only under requested directories, exact counts for ByBitLength, the per-directory listing shows only the selection and stays within the per-directory request, a de-selected space refuses actions, rejected requests leave directory listing and wallet key counter unchanged, no existing file altered, a restarted keeper re-indexes exactly the surviving spaces with the same ordinal/bit length/state; non-trivial = a request satisfied by mixing existing and new spaces, or a multi-directory request, or a reject path, or a re-configuration while a space is mining; distinct = distinct case JSON",
 	Gen:  vfGenC15, Run: vfC15Run,
 }
 
